@@ -74,6 +74,7 @@ static void vo_fill(var_opt_sketch<T>& s, uint64_t n, Rng& r, int heavy_mode) {
 #if C09_S == 1
 template<typename T>
 static void case_varopt(Rng& r) {
+  describe(std::string("varopt<") + SItem<T>::name() + "> (generating state)");
   typedef var_opt_sketch<T> S;
   typedef typename SItem<T>::SerDe SD;
   const std::string fam = std::string("varopt<") + SItem<T>::name() + ">";
@@ -133,6 +134,7 @@ static void vou_feed(var_opt_union<T>& u, unsigned how_many, Rng& r) {
 
 template<typename T>
 static void case_varopt_union(Rng& r) {
+  describe(std::string("varopt_union<") + SItem<T>::name() + "> (generating state)");
   typedef var_opt_union<T> S;
   typedef typename SItem<T>::SerDe SD;
   const std::string fam = std::string("varopt_union<") + SItem<T>::name() + ">";
@@ -183,6 +185,7 @@ static void eb_fill(ebpps_sketch<T>& s, uint64_t n, Rng& r, bool unit_weights) {
 
 template<typename T>
 static void case_ebpps(Rng& r) {
+  describe(std::string("ebpps<") + SItem<T>::name() + "> (generating state)");
   typedef ebpps_sketch<T> S;
   typedef typename SItem<T>::SerDe SD;
   const std::string fam = std::string("ebpps<") + SItem<T>::name() + ">";
@@ -300,6 +303,7 @@ static void td_fill(tdigest<T>& s, uint64_t n, Rng& r, int shape) { for (uint64_
 
 template<typename T>
 static void case_tdigest(Rng& r) {
+  describe(std::string(TdName<T>::name()) + " (generating state)");
   typedef tdigest<T> S;
   const std::string base = TdName<T>::name();
   const uint16_t k = static_cast<uint16_t>(r.chance(0.7) ? r.range(10, 30) : r.range(31, 200));
@@ -400,6 +404,7 @@ static void dn_fill(density_sketch<T>& s, uint64_t n, Rng& r) {
 
 template<typename T>
 static void case_density(Rng& r) {
+  describe(std::string(DnName<T>::name()) + " (generating state)");
   typedef density_sketch<T> S;
   const std::string fam = DnName<T>::name();
   const uint16_t k = static_cast<uint16_t>(r.range(2, 12));
